@@ -1289,10 +1289,10 @@ func (broker *Broker) finish(file sts.Polled) {
 	switch {
 	case file.Waiting() || file.Received():
 		if cached := broker.Conf.Cache.Get(file.GetName()); cached != nil &&
-			cached.GetHash() != "" && file.GetHash() != "" &&
-			cached.GetHash() != file.GetHash() {
+			file.GetHash() != "" && cached.GetHash() != file.GetHash() {
 			// The answer is about a version that has been replaced in the
-			// cache since it was sent; it says nothing about the current one
+			// cache since it was sent (possibly by one that could not be
+			// hashed yet); it says nothing about the current one
 			broker.info("Ignoring confirmation of a replaced version:", file.GetName())
 			return
 		}
